@@ -166,8 +166,10 @@ func VK04bReceive() {
 	which := vrt.Choice(2)
 	b := bs[which]
 	nSmall := len(small.Refs)
-	sb, err := s.ReceiveBlob(context.Background(), b.ref, bytes.NewReader(b.data))
+	src := &vEOFReader{r: bytes.NewReader(b.data)}
+	sb, err := s.ReceiveBlob(context.Background(), b.ref, src)
 	vrt.Assert(err == nil && sb.Ref == b.ref && int(sb.Size) == len(b.data), "receive acknowledges the true size")
+	vrt.Assert(src.eof, "an upload is acknowledged only after its source was read to the end (its digest is verified at EOF), also for a blob that is already packed or loose")
 	if b.packed || b.inSmall {
 		vrt.Assert(len(small.Refs) == nSmall, "receiving a blob that is already present stores nothing new")
 	}
@@ -175,6 +177,20 @@ func VK04bReceive() {
 		b.inSmall = true
 	}
 	vCheckMap(s, bs, "after receive")
+}
+
+// vEOFReader notes whether io.EOF was handed out.
+type vEOFReader struct {
+	r   io.Reader
+	eof bool
+}
+
+func (e *vEOFReader) Read(p []byte) (int, error) {
+	n, err := e.r.Read(p)
+	if err == io.EOF {
+		e.eof = true
+	}
+	return n, err
 }
 
 var _ = blobserver.ErrNotImplemented
